@@ -323,39 +323,40 @@ Definition ev_code (c : cfg) (s : state) (th : thread) : nat :=
       end
   end.
 
-(* task the worker is running after the step (or the task just completed), for cross-checking *)
-Definition cur_task (s : state) (th : thread) : option nat :=
+(* task involved in the step thread th is about to take (0 for driver / main steps) *)
+Definition ev_task (c : cfg) (s : state) (th : thread) : nat :=
   match th with
-  | TWrk w => match s_wk s w with WRun t _ => Some t | WIdle => None end
-  | _ => None
+  | TWrk w =>
+      match s_wk s w with
+      | WRun t _ => t
+      | WIdle => match first_task c s (wpool c w) is_queued with Some t => t | None => 0 end
+      end
+  | _ => 0
   end.
 
-(* one observed step: thread, event code, in_flight and oversized flag AFTER the step *)
-Definition ostep : Type := (thread * nat * Z * bool)%type.
+(* one observed step: thread, event code, task, in_flight and oversized flag AFTER the step *)
+Definition ostep : Type := (thread * nat * nat * Z * bool)%type.
+
+Definition ostep_ok (c : cfg) (s : state) (o : ostep) : option state :=
+  let '(th, code, t, inf, ov) := o in
+  if Nat.eqb (ev_code c s th) code && Nat.eqb (ev_task c s th) t then
+    match step c s th with
+    | Some s' => if Z.eqb (s_inflight s') inf && Bool.eqb (s_over s') ov then Some s' else None
+    | None => None
+    end
+  else None.
 
 Fixpoint follow (c : cfg) (s : state) (tr : list ostep) : option state :=
   match tr with
   | [] => Some s
-  | (th, code, inf, ov) :: r =>
-      if Nat.eqb (ev_code c s th) code then
-        match step c s th with
-        | Some s' => if Z.eqb (s_inflight s') inf && Bool.eqb (s_over s') ov then follow c s' r else None
-        | None => None
-        end
-      else None
+  | o :: r => match ostep_ok c s o with Some s' => follow c s' r | None => None end
   end.
 
 (* number of observed steps the model accepts (for diagnostics) *)
 Fixpoint accepted (c : cfg) (s : state) (tr : list ostep) : nat :=
   match tr with
   | [] => 0
-  | (th, code, inf, ov) :: r =>
-      if Nat.eqb (ev_code c s th) code then
-        match step c s th with
-        | Some s' => if Z.eqb (s_inflight s') inf && Bool.eqb (s_over s') ov then S (accepted c s' r) else 0
-        | None => 0
-        end
-      else 0
+  | o :: r => match ostep_ok c s o with Some s' => S (accepted c s' r) | None => 0 end
   end.
 
 (* whole-run agreement: the trace is a path of the LTS ending in a final state with the observed
